@@ -42,6 +42,14 @@ Reading given to the accepted subset
 * `os.path.join(os.path.dirname(os.path.realpath(__file__)), a, ...)` -> `script_path`;
   `datetime.datetime.now().isoformat()` -> `now_iso`; `str(x)`; `+`; `not`; `==`, `!=`, `<`, `<=`,
   `>`, `>=`, `in`, `is None`, `is not None`; constants None / True / False / int / str; list displays.
+* A table loop is unrolled at translation time: a local bound ONCE, by `name = [(c11, .., c1k), (c21, ..), ...]` (a list
+  display of tuples of constants, all of one arity), whose only use is as the iterable of ONE
+  `for v1, .., vk in name:` that follows the assignment in the same statement list, is read as the
+  loop body repeated once per row with the constants substituted for v1..vk (Python's semantics of
+  iterating a list nobody else can reach; a `raise` / `return` in the body ends the sequence as it
+  ends the loop).  The loop variables must not be assigned in the body nor used outside the loop,
+  the loop has no `else`, `break` or `continue`.  Anything else about such a list (indexing,
+  mutation, a second use, non-constant elements) is refused like any tuple / loop.
 * `print(..., file=sys.stderr)` -> `print_err` (a no-op); a `print` without `file=` -> `print_out`
   (logs EStdout); any other `file=` is refused.
 
@@ -57,6 +65,7 @@ module-level code outside the translated functions (the `__main__` guard, the im
 Anything else raises Refuse with file:line and coq/gen/Cli_gen.v is replaced by a file that does
 not compile (fail closed)."""
 import ast
+import copy
 import os
 import sys
 
@@ -175,11 +184,115 @@ def dotted(node):
     return None
 
 
+# ----------------------------------------------------------------------------- table loops
+
+def _is_const(n):
+    return isinstance(n, ast.Constant) and (n.value is None or isinstance(n.value, (bool, int, str)))
+
+
+def _table_rows(stmt):
+    """`name = [(c, ..), ..]` -> (name, rows) or None"""
+    if not (isinstance(stmt, ast.Assign) and len(stmt.targets) == 1 and isinstance(stmt.targets[0], ast.Name)
+            and isinstance(stmt.value, ast.List) and stmt.value.elts):
+        return None
+    rows = []
+    for e in stmt.value.elts:
+        if not (isinstance(e, ast.Tuple) and e.elts and all(_is_const(c) for c in e.elts)):
+            return None
+        rows.append([c.value for c in e.elts])
+    if len(set(len(r) for r in rows)) != 1:
+        return None
+    return stmt.targets[0].id, rows
+
+
+class _Subst(ast.NodeTransformer):
+    def __init__(self, env):
+        self.env = env
+
+    def visit_Name(self, node):
+        if isinstance(node.ctx, ast.Load) and node.id in self.env:
+            return ast.copy_location(ast.Constant(value=self.env[node.id]), node)
+        return node
+
+
+def _stmt_lists(node):
+    for n in ast.walk(node):
+        for fld in ("body", "orelse", "finalbody"):
+            v = getattr(n, fld, None)
+            if isinstance(v, list) and v and isinstance(v[0], ast.stmt):
+                yield v
+
+
+def unroll_tables(fn):
+    """-> a copy of the function in which every table loop (see the module docstring) is replaced by its unrolled
+    body and the assignment of the table is removed.  A list of constant tuples that is used in any other way is
+    left alone (and refused later: tuples are outside the subset)."""
+    fn = copy.deepcopy(fn)
+
+    def refuse(node, msg):
+        raise Refuse("%s:%d: %s: %s" % (SRC, getattr(node, "lineno", 0), fn.name, msg))
+    changed = True
+    while changed:
+        changed = False
+        for blk in _stmt_lists(fn):
+            for i, st in enumerate(blk):
+                tr = _table_rows(st)
+                if tr is None:
+                    continue
+                name, rows = tr
+                names = [n for n in ast.walk(fn) if isinstance(n, ast.Name) and n.id == name]
+                stores = [n for n in names if not isinstance(n.ctx, ast.Load)]
+                loads = [n for n in names if isinstance(n.ctx, ast.Load)]
+                fors = [x for x in blk[i + 1:] if isinstance(x, ast.For) and isinstance(x.iter, ast.Name) and x.iter.id == name]
+                if len(stores) != 1 or len(loads) != 1 or len(fors) != 1 or loads[0] is not fors[0].iter \
+                        or name in [a.arg for a in fn.args.args]:
+                    continue                      # not a table loop: the tuple display is refused downstream
+                loop = fors[0]
+                if loop.orelse:
+                    refuse(loop, "for ... else over the table %r" % name)
+                tg = loop.target
+                tvars = [tg] if isinstance(tg, ast.Name) else list(tg.elts) if isinstance(tg, ast.Tuple) else None
+                if tvars is None or not all(isinstance(v, ast.Name) for v in tvars) or len(set(v.id for v in tvars)) != len(tvars):
+                    refuse(loop, "the target of the loop over the table %r is not a tuple of distinct names" % name)
+                if isinstance(tg, ast.Name):
+                    refuse(loop, "the loop over the table %r binds whole rows (tuples are outside the subset)" % name)
+                if len(tvars) != len(rows[0]):
+                    refuse(loop, "the loop over the table %r unpacks %d names from rows of %d" % (name, len(tvars), len(rows[0])))
+                ids = set(v.id for v in tvars)
+                inside = set(id(n) for n in ast.walk(loop))
+                for n in ast.walk(fn):
+                    if isinstance(n, ast.Name) and n.id in ids and id(n) not in inside:
+                        refuse(n, "loop variable %r of the table loop is used outside the loop" % n.id)
+                    if isinstance(n, ast.arg) and n.arg in ids:
+                        refuse(loop, "loop variable %r of the table loop is a parameter" % n.arg)
+                for b in loop.body:
+                    for n in ast.walk(b):
+                        if isinstance(n, ast.Name) and n.id in ids and not isinstance(n.ctx, ast.Load):
+                            refuse(n, "loop variable %r is assigned inside the table loop" % n.id)
+                        if isinstance(n, (ast.Break, ast.Continue)):
+                            refuse(n, "break / continue inside the table loop")
+                        if isinstance(n, (ast.For, ast.While, ast.FunctionDef, ast.Lambda, ast.ClassDef, ast.Global, ast.Nonlocal)):
+                            refuse(n, "%s inside the table loop" % type(n).__name__)
+                unrolled = []
+                for row in rows:
+                    env = {v.id: c for v, c in zip(tvars, row)}
+                    for b in loop.body:
+                        unrolled.append(ast.fix_missing_locations(_Subst(env).visit(copy.deepcopy(b))))
+                j = blk.index(loop)
+                blk[j:j + 1] = unrolled
+                del blk[i]
+                changed = True
+                break
+            if changed:
+                break
+    return fn
+
+
 # ----------------------------------------------------------------------------- one function
 
 class Fn:
     def __init__(self, tr, node, heap):
-        self.tr, self.node, self.heap = tr, node, heap      # heap: name of THE dict in this function (or None)
+        self.tr, self.node, self.heap = tr, unroll_tables(node), heap      # heap: name of THE dict in this function (or None)
         self.ntemp = 0
         self.prelude = []
 
